@@ -33,7 +33,18 @@ type c12Event struct {
 }
 
 // c12Order lists the marker references of a function body in source order, consecutive duplicates collapsed.
-func c12Order(x *X, fd *ast.FuncDecl) []string {
+func c12Order(x *X, fd *ast.FuncDecl) []string { return c12OrderWith(x, fd, c12Markers) }
+
+// the gRPC interceptor: lookup, the access check on the peer address, then the handler (which runs the
+// director and dials the upstream)
+var c12GRPCMarkers = map[string]string{
+	"g.lookup":                "lookup",
+	"target.AccessDeniedAddr": "access",
+	"target.Authorized":       "auth",
+	"handler":                 "upstream",
+}
+
+func c12OrderWith(x *X, fd *ast.FuncDecl, c12Markers map[string]string) []string {
 	var evs []c12Event
 	ast.Inspect(fd.Body, func(n ast.Node) bool {
 		switch v := n.(type) {
@@ -88,6 +99,11 @@ func c12Gate(x *X, fd *ast.FuncDecl, method string, negated bool) (bool, string)
 				status = x.src(c.Args[2])
 			}
 		}
+		for _, c := range x.calls(ifs.Body, "status.Error") {
+			if len(c.Args) == 2 {
+				status = x.src(c.Args[0])
+			}
+		}
 		return true, status
 	}
 	return false, ""
@@ -129,6 +145,17 @@ func init() {
 				}
 			}
 			x.defBool(p[1]+"DeferClose", closes)
+		}
+		// --- gRPC interceptor
+		if fd := x.funcDecl("proxy", "GrpcProxyInterceptor", "Stream"); fd != nil {
+			x.defStrList("grpcOrder", c12OrderWith(x, fd, c12GRPCMarkers))
+			ok, code := c12Gate(x, fd, "target.AccessDeniedAddr", false)
+			x.defBool("grpcGateReturns", ok)
+			x.defStr("grpcDeniedCode", code)
+		}
+		// AccessDeniedTCP decides through AccessDeniedAddr (one decision for TCP connections and gRPC peers)
+		if fd := x.funcDecl("route", "Target", "AccessDeniedTCP"); fd != nil {
+			x.defNat("tcpDelegatesToAddr", uint64(len(x.calls(fd.Body, "t.AccessDeniedAddr"))))
 		}
 		// --- tags
 		for _, c := range []string{"ipAllowTag", "ipDenyTag"} {
